@@ -41,7 +41,7 @@ var bodyPkgs = map[string]bool{
 	"strings": true, "strconv": true, "time": true, "unicode/utf8": true, "unicode": true, "errors": true, "math": true,
 	"github.com/google/fhir/go/proto/google/fhir/proto/r4/core/datatypes_go_proto": true,
 	"github.com/shopspring/decimal": true,
-	"net/url": true, "path": true, "encoding/base64": true,
+	"net/url": true, "path": true, "encoding/base64": true, "slices": true,
 }
 
 var execStdPkgs = map[string]bool{
